@@ -249,13 +249,13 @@ Lemma frame_same_outside : forall s dir sv sv', frame s dir sv sv' -> same_outsi
 Proof. intros s dir sv sv' [H _]. now apply (fv_same_outside s). Qed.
 
 Lemma ocmd_ind' : forall (P : ocmd -> Prop),
-  (forall c, P (OX c)) -> (forall k i, P (OInsert k i)) -> (forall f, P (OReorder f)) ->
+  (forall c, P (OX c)) -> (forall k i, P (OInsert k i)) -> (forall f, P (OReorder f)) -> (forall fl i, P (OSetIdx fl i)) ->
   (forall l, Forall P l -> P (OBatch l)) -> forall c, P c.
 Proof.
-  intros P H1 H2 H3 H4.
+  intros P H1 H2 H3 H5 H4.
   refine (fix IH (c : ocmd) : P c :=
             match c with
-            | OX c => H1 c | OInsert k i => H2 k i | OReorder f => H3 f
+            | OX c => H1 c | OInsert k i => H2 k i | OReorder f => H3 f | OSetIdx fl i => H5 fl i
             | OBatch l => H4 l ((fix go (l : list ocmd) : Forall P l :=
                                    match l with [] => Forall_nil P | c' :: r => Forall_cons c' (IH c') (go r) end) l)
             end).
@@ -341,6 +341,50 @@ Proof.
   split; [apply xframe_refl|]. split; [exact A1|]. split; [exact A2|exact A3].
 Qed.
 
+(* SETDATA with ADDTOINDEX: item by item *)
+Definition item_inv (s : sid) (dir : path) (os0 os : oserver) : Prop :=
+  xframe s dir (o_x os0) (o_x os) /\ idx_out dir (o_idx os) = idx_out dir (o_idx os0) /\ o_ctr os = o_ctr os0 /\
+  (deep (o_idx os0) -> deep (o_idx os)) /\
+  exists ss', get_session (xs_sv (o_x os)) s = Some ss' /\ session_dir ss' = dir.
+
+Lemma set_idx_item_inv : forall nest ss flags os0 os it,
+  item_inv (s_id ss) (session_dir ss) os0 os -> item_inv (s_id ss) (session_dir ss) os0 (set_idx_item fx nest ss flags os it).
+Proof.
+  intros nest ss flags os0 os it [Fx [HI [HC [HD [ss' [Hs' Hd']]]]]]. unfold set_idx_item. cbv zeta.
+  match goal with |- item_inv _ _ _ (mkO ?X _ _) => set (x' := X) end.
+  pose proof (xhandle_xframe fx (XSetData (N.setbit flags c_SETDATANODE_FLAG_DONTOVERWRITEDATA) [it]) nest (o_x os) (s_id ss) ss' Hs') as F1.
+  rewrite Hd' in F1. fold x' in F1.
+  split; [eapply xframe_trans; eassumption|]. cbn [o_idx o_ctr o_x].
+  assert (Hin : is_prefix (session_dir ss) (session_dir ss ++ removelast (snd (fst it))) = true) by apply below_inside.
+  assert (Hlen : 2 <= length (session_dir ss ++ removelast (snd (fst it)))) by (rewrite app_length, session_dir_len; lia).
+  split; [|split; [exact HC|split]].
+  - destruct (_ && has_node _ _); [|exact HI]. now rewrite idx_out_set_inside.
+  - intros D. destruct (_ && has_node _ _); [|now apply HD]. apply deep_idx_set; [now apply HD|exact Hlen].
+  - pose proof (proj2 (proj2 (proj1 F1))) as Hid.
+    destruct (get_session (xs_sv x') (s_id ss)) as [ss2|] eqn:Hs2.
+    + exists ss2. split; [reflexivity|]. destruct (idents_session_dir _ _ (s_id ss) ss' ss2 Hid Hs' Hs2) as [_ H2]. congruence.
+    + pose proof (idents_get_none _ _ (s_id ss) Hid Hs2). congruence.
+Qed.
+
+Lemma do_set_idx_frame : forall nest os ss flags items, get_session (xs_sv (o_x os)) (s_id ss) = Some ss -> ok os ->
+  oframe (s_id ss) (session_dir ss) os (do_set_idx fx nest os ss flags items).
+Proof.
+  intros nest os ss flags items Hs Hok. unfold do_set_idx.
+  assert (G : item_inv (s_id ss) (session_dir ss) os (fold_left (set_idx_item fx nest ss flags) items os)).
+  { assert (G0 : item_inv (s_id ss) (session_dir ss) os os).
+    { split; [apply xframe_refl|]. split; [reflexivity|]. split; [reflexivity|]. split; [auto|]. now exists ss. }
+    revert G0. generalize os at 2 4. induction items as [|it items IH]; intros os1 G1; cbn [fold_left]; [exact G1|].
+    apply IH. now apply set_idx_item_inv. }
+  destruct G as [Fx [HI [HC [HD _]]]]. set (os1 := fold_left (set_idx_item fx nest ss flags) items os) in *.
+  pose proof Hok as [D1 [D2 [S1 S2]]].
+  assert (Hso : same_outside (session_dir ss) (sv_tree (xs_sv (o_x os))) (sv_tree (xs_sv (o_x os1)))) by (apply (frame_same_outside (s_id ss)); exact (proj1 Fx)).
+  assert (HC' : ctr_out (session_dir ss) (o_ctr os1) = ctr_out (session_dir ss) (o_ctr os)) by now rewrite HC.
+  assert (D2' : deep (o_ctr os1)) by now rewrite HC.
+  destruct (prune_frame (session_dir ss) os (o_x os1) (o_idx os1) (o_ctr os1) (session_dir_len ss) Hok Hso HI HC' (HD D1) D2') as [A1 [A2 A3]].
+  replace (mkO (o_x os1) (o_idx os1) (o_ctr os1)) with os1 in * by (destruct os1; reflexivity).
+  split; [exact Fx|]. split; [exact A1|]. split; [exact A2|exact A3].
+Qed.
+
 Lemma oframe_trans : forall s dir a b c, oframe s dir a b -> oframe s dir b c -> oframe s dir a c.
 Proof.
   intros s dir a b c [X1 [I1 [C1 _]]] [X2 [I2 [C2 K2]]]. split; [eapply xframe_trans; eassumption|]. split; [congruence|]. split; [congruence|exact K2].
@@ -362,7 +406,7 @@ Qed.
 Theorem ohandle_frame : forall c nest os s ss, get_session (xs_sv (o_x os)) s = Some ss -> ok os ->
   oframe s (session_dir ss) os (ohandle fx iname nest os s c).
 Proof.
-  induction c as [xc|k i|f|l IHl] using ocmd_ind'; intros nest os s ss Hs Hok; pose proof (get_session_id _ _ _ Hs) as Hid.
+  induction c as [xc|k i|f|fl i|l IHl] using ocmd_ind'; intros nest os s ss Hs Hok; pose proof (get_session_id _ _ _ Hs) as Hid.
   - assert (G : forall nest', oframe s (session_dir ss) os (oprune (mkO (xhandle fx nest' (o_x os) s xc) (o_idx os) (o_ctr os)))).
     { intros nest'. pose proof (xhandle_xframe fx xc nest' (o_x os) s ss Hs) as Fx.
       assert (Hso : same_outside (session_dir ss) (sv_tree (xs_sv (o_x os))) (sv_tree (xs_sv (xhandle fx nest' (o_x os) s xc))))
@@ -373,6 +417,7 @@ Proof.
     destruct nest; cbn [ohandle]; rewrite Hs; apply G.
   - subst s. destruct nest; cbn [ohandle]; rewrite Hs; now apply do_insert_frame.
   - subst s. destruct nest; cbn [ohandle]; rewrite Hs; now apply do_reorder_frame.
+  - subst s. destruct nest; cbn [ohandle]; rewrite Hs; now apply do_set_idx_frame.
   - assert (G : forall nest' os', ok os' ->
               forall ss', get_session (xs_sv (o_x os')) s = Some ss' -> session_dir ss' = session_dir ss ->
               oframe s (session_dir ss) os'
